@@ -716,7 +716,10 @@ func (l *Log) purePfKeys() [][]byte {
 			continue
 		}
 		switch name {
-		case "del", "hmclear", "lmclear", "smclear", "zmclear":
+		case "del":
+			// DEL of a PFADD target keeps it pure: after the DEL the sketch must be gone (or be exactly what later
+			// PFADDs built) on every variant, whether or not a flush came between the PFADD and the DEL
+		case "hmclear", "lmclear", "smclear", "zmclear":
 			for _, a := range r.Args[1:] {
 				delete(pf, string(a))
 			}
